@@ -211,7 +211,7 @@ func handleUIDStore(deps ServerDeps, conn net.Conn, tag string, parts []string, 
 	}
 
 	// Get appropriate database (user or role mailbox)
-	targetDB, _, err := deps.GetSelectedDB(state)
+	targetDB, targetUserID, err := deps.GetSelectedDB(state)
 	if err != nil {
 		deps.SendResponse(conn, fmt.Sprintf("%s NO Database error", tag))
 		return
@@ -285,7 +285,7 @@ func handleUIDStore(deps ServerDeps, conn net.Conn, tag string, parts []string, 
 			cleanedFlagsStr := flagSetToString(cleanedFlags)
 
 			// Move to Spam folder
-			err = message.MoveMessageToMailbox(targetDB, messageID, state.SelectedMailboxID, "Spam", state.UserID, cleanedFlagsStr, internalDate)
+			err = message.MoveMessageToMailbox(targetDB, messageID, state.SelectedMailboxID, "Spam", targetUserID, cleanedFlagsStr, internalDate)
 			if err != nil {
 				log.Printf("Failed to move message %d to Spam: %v", messageID, err)
 			} else {
@@ -303,7 +303,7 @@ func handleUIDStore(deps ServerDeps, conn net.Conn, tag string, parts []string, 
 			cleanedFlagsStr := flagSetToString(cleanedFlags)
 
 			// Move to INBOX
-			err = message.MoveMessageToMailbox(targetDB, messageID, state.SelectedMailboxID, "INBOX", state.UserID, cleanedFlagsStr, internalDate)
+			err = message.MoveMessageToMailbox(targetDB, messageID, state.SelectedMailboxID, "INBOX", targetUserID, cleanedFlagsStr, internalDate)
 			if err != nil {
 				log.Printf("Failed to move message %d to INBOX: %v", messageID, err)
 			} else {
